@@ -8,6 +8,10 @@ struct QmailTree {
   std::map<std::string, uint32_t> uids;     // alias qmaild qmaill root qmailp qmailq qmailr qmails
   uint32_t gid_qmail = 2107, gid_nofiles = 2108;
   void build(Kernel *k, const Json &conf);   // users, groups, directories, lock files, trigger
+  // the same configuration in another spelling: style 1 = no newline after the last line, style 2 = a comment line first, blank
+  // lines and trailing blanks (control files are line lists; control_readfile(3) ignores all of that)
+  static void restyle_control(Kernel *k, const std::string &path, int style);
+  void restyle_all_controls(Kernel *k, int style);
   std::string qp(const std::string &dir, uint64_t n, bool splitdir) const {
     std::string s = home + "/queue/" + dir + "/"; if (splitdir) s += std::to_string(n % (uint64_t)split) + "/"; return s + std::to_string(n);
   }
